@@ -389,7 +389,7 @@ def run(tier, seed):
                      "C07_order_inv is proved for create_sub_element[_at] and remove only; named/copy/move are tied by correspondence and checked by the order oracle",
                      "the reload clause (serialize + lenient load) is checked by oracle on the implementation, not proved; recorded exceptions are the known findings printed"],
         extra={"theorem_kinds": {"C07_SpecWF_real": "F", "C07_range_exact": "U", "C07_range_complete": "U", "C07_range_err": "U", "C07_range_bounds": "U",
-                                 "C07_create_iff_range": "U", "C07_create_err": "U", "C07_allowed_iff_range": "U", "C07_allowed_iff": "U",
+                                 "C07_create_iff_range": "U", "C07_create_err": "U", "C07_create_named_only_in_range": "U", "C07_loader_checks_quiet": "U", "C07_allowed_iff_range": "U", "C07_allowed_iff": "U",
                                  "C07_order_inv_partial": "P", "C07_ordered_loader_accepts": "U", "C07_loader_enforces_order_refuted": "F-witness",
                                  "C07_copy_resolves_type_refuted": "F-witness", "C07_ordered_nonvacuous": "F"}})
 
